@@ -502,3 +502,150 @@ def call_closure(run: Run, fa: C.FuncAST, files: Sequence[str], depth: int = 3,
                     except AnalysisError:
                         pass
     return out
+
+
+# ---------------------------------------------------------------------------------------------
+# K8 lockset
+# ---------------------------------------------------------------------------------------------
+_LOCK_TYPES = ("lock_guard", "unique_lock", "scoped_lock")
+
+
+def lock_accesses(fa: C.FuncAST, mutex_re: str, fields: Sequence[str], via: Optional[str] = None,
+                  entry_held: bool = False) -> List[Tuple[C.Node, str, bool]]:
+    """Every access to one of `fields` in fa with the lock state at that point: (node, field, held).
+
+    A lock is held from the declaration of a lock_guard/unique_lock/scoped_lock over a mutex matching
+    mutex_re to the end of its block, minus `lockvar.unlock()` .. `lockvar.lock()` spans.  Lambda bodies
+    inherit the state at their definition point (wait predicates, local helpers used in the same region).
+    """
+    cn = aliases_of(fa)
+    mrx = re.compile(mutex_re)
+    vrx = re.compile(via) if via else None
+    fset = set(fields)
+    shadow = {nm for _, nm in fa.params if nm}
+    for n in fa.body.walk():
+        if isinstance(n, C.Declarator) and n.bindings is None:
+            shadow.add(n.name)
+        elif isinstance(n, C.Lambda):
+            for _, nm in n.params:
+                if nm:
+                    shadow.add(nm)
+    out: List[Tuple[C.Node, str, bool]] = []
+
+    def scan_expr(e: Optional[C.Node], held: bool) -> None:
+        if e is None:
+            return
+        stack = [e]
+        while stack:
+            x = stack.pop()
+            if isinstance(x, C.Lambda):
+                walk_block(x.body, held)
+                continue
+            if vrx is None:
+                if isinstance(x, C.Id) and x.name in fset and x.name not in shadow:
+                    out.append((x, x.name, held))
+                elif isinstance(x, C.Member) and isinstance(x.obj, C.Lit) and x.obj.text == "this" and x.name in fset:
+                    out.append((x, x.name, held))
+            else:
+                if isinstance(x, C.Member) and x.name in fset and vrx.fullmatch(cn(x.obj)):
+                    out.append((x, x.name, held))
+            if isinstance(x, C.Member) and not (vrx is not None):
+                # a.b where b is a field name of *another* object is not ours; still descend into the object
+                stack.append(x.obj)
+                continue
+            stack.extend(x.children())
+
+    def walk_block(b: C.Node, held: bool) -> bool:
+        stmts = b.stmts if isinstance(b, C.Block) else [b]
+        lock_vars: Dict[str, bool] = {}
+        cur = held
+        for s in stmts:
+            cur = walk_stmt(s, cur, lock_vars)
+        return held if isinstance(b, C.Block) else cur
+
+    def walk_stmt(s: C.Node, held: bool, lock_vars: Dict[str, bool]) -> bool:
+        if isinstance(s, C.Decl):
+            is_lock = any(k in s.type for k in _LOCK_TYPES)
+            for d in s.decls:
+                if is_lock and d.init is not None:
+                    args = d.init.elems if isinstance(d.init, C.Init) else [d.init]
+                    if any(mrx.fullmatch(cn(a)) for a in args):
+                        lock_vars[d.name] = True
+                        held = True
+                        continue
+                scan_expr(d.init, held)
+            return held
+        if isinstance(s, C.ExprStmt):
+            e = s.e
+            if isinstance(e, C.Call) and isinstance(e.fn, C.Member) and isinstance(e.fn.obj, C.Id) \
+                    and e.fn.obj.name in lock_vars and e.fn.name in ("unlock", "lock"):
+                return e.fn.name == "lock"
+            scan_expr(e, held)
+            return held
+        if isinstance(s, C.Block):
+            walk_block(s, held)
+            return held
+        if isinstance(s, C.If):
+            if s.init is not None:
+                held = walk_stmt(s.init, held, lock_vars)
+            if isinstance(s.cond, C.Decl):
+                held = walk_stmt(s.cond, held, lock_vars)
+            else:
+                scan_expr(s.cond, held)
+            a = walk_stmt(s.then, held, dict(lock_vars)) if not isinstance(s.then, C.Block) else (walk_block_lv(s.then, held, lock_vars))
+            b = held
+            if s.els is not None:
+                b = walk_stmt(s.els, held, dict(lock_vars)) if not isinstance(s.els, C.Block) else (walk_block_lv(s.els, held, lock_vars))
+            return a and b
+        if isinstance(s, (C.For,)):
+            if s.init is not None:
+                held = walk_stmt(s.init, held, lock_vars)
+            scan_expr(s.cond, held)
+            scan_expr(s.step, held)
+            walk_any(s.body, held, lock_vars)
+            return held
+        if isinstance(s, C.RangeFor):
+            scan_expr(s.range, held)
+            walk_any(s.body, held, lock_vars)
+            return held
+        if isinstance(s, (C.While, C.DoWhile)):
+            scan_expr(s.cond if not isinstance(s.cond, C.Decl) else None, held)
+            walk_any(s.body, held, lock_vars)
+            return held
+        if isinstance(s, C.Switch):
+            scan_expr(s.cond, held)
+            walk_any(s.body, held, lock_vars)
+            return held
+        if isinstance(s, C.Return):
+            scan_expr(s.e, held)
+            return held
+        if isinstance(s, C.Try):
+            walk_any(s.body, held, lock_vars)
+            for h in s.handlers:
+                walk_any(h.body, held, lock_vars)
+            return held
+        if isinstance(s, C.Case):
+            scan_expr(s.value, held)
+            return held
+        return held
+
+    def walk_block_lv(b: C.Block, held: bool, lock_vars: Dict[str, bool]) -> bool:
+        """Block nested in a statement: unlock()/lock() on an outer lock variable inside it affects the outer state."""
+        cur = held
+        inner = dict(lock_vars)
+        outer_names = set(lock_vars)
+        for s in b.stmts:
+            cur = walk_stmt(s, cur, inner)
+        # locks declared inside die with the block; state of outer locks persists
+        declared_inside = set(inner) - outer_names
+        if declared_inside and not any(lock_vars.values()):
+            return held
+        return cur if not declared_inside else held
+
+    def walk_any(s: C.Node, held: bool, lock_vars: Dict[str, bool]) -> bool:
+        if isinstance(s, C.Block):
+            return walk_block_lv(s, held, lock_vars)
+        return walk_stmt(s, held, dict(lock_vars))
+
+    walk_block_lv(fa.body, entry_held, {})
+    return out
